@@ -461,13 +461,28 @@ impl Mp4Track {
                     )?;
                 }
 
+                // Sum the preceding sizes straight from the run that was just located:
+                // `self.sample_size(i)` would search all trafs again for every one of them.
                 let first_sample_in_trun = sample_id - sample_idx as u32;
-                for i in first_sample_in_trun..sample_id {
-                    sample_offset = sample_offset
-                        .checked_add(self.sample_size(i)? as u64)
-                        .ok_or(Error::InvalidData(
-                            "attempt to calculate trun entry sample offset with overflow",
-                        ))?;
+                let sizes = self.trafs[traf_idx]
+                    .trun
+                    .as_ref()
+                    .map(|trun| trun.sample_sizes.as_slice())
+                    .unwrap_or(&[]);
+                if sizes.len() < sample_idx {
+                    return Err(Error::EntryInTrunNotFound(
+                        self.track_id(),
+                        BoxType::TrunBox,
+                        first_sample_in_trun + sizes.len() as u32,
+                    ));
+                }
+                for size in &sizes[..sample_idx] {
+                    sample_offset =
+                        sample_offset
+                            .checked_add(*size as u64)
+                            .ok_or(Error::InvalidData(
+                                "attempt to calculate trun entry sample offset with overflow",
+                            ))?;
                 }
 
                 Ok(sample_offset)
